@@ -364,8 +364,16 @@ static void run_cmd(const sim::Cmd &c, sim::Out &out)
           o.a = {static_cast<long>(g.below(4))};
           break;
         default:
-          o = g_op(g, g.chance(1, 2) ? "goal" : "fact");
-          o.name = "l" + o.name;
+          if (g.chance(1, 4))
+          { // a late requirement (skipped unless q_late_requirements=0 is given)
+            o = g_op(g, g.chance(1, 2) ? "goal" : "fact");
+            o.name = "l" + o.name;
+          }
+          else
+          {
+            o.name = g.chance(1, 2) ? "xfail" : "xfailp";
+            o.a = {static_cast<long>(g.below(4))};
+          }
           break;
         }
       }
